@@ -928,6 +928,12 @@ pub fn known_main(id: &str) {
             let rs: Vec<String> = ["(module) @a @b @c { print @a, @b, @c }\n", "(pass_statement)? @a { print @a }\n"].iter().map(|d| run(d, false)).collect();
             if rs.iter().any(|r| r == "panic") { format!("REPRODUCED panic (missing full capture): {:?}", rs) } else { format!("NOT-REPRODUCED ({:?})", rs) }
         }
+        "K8" => {
+            // tree-sitter keeps at most 3 captures per query step: the 4th capture on a (non-root) node has quantifier One and is never bound
+            let d = "(module (function_definition name: (identifier) @_a @_b @_c @d)) { print @d }\n";
+            let rs: Vec<String> = [false, true].iter().map(|lazy| run(d, *lazy)).collect();
+            if rs.iter().all(|r| r == "panic") { format!("REPRODUCED panic (missing capture) in both modes: {:?}", rs) } else { format!("NOT-REPRODUCED ({:?})", rs) }
+        }
         "K4a" => { let r = load("attribute sh = x => a = undefined_variable_zz\n(module) { node n\n attr (n) b = 1 }\n"); if r.is_ok() { "REPRODUCED a shorthand body using an undefined variable is accepted by the loader".to_string() } else { "NOT-REPRODUCED (rejected)".into() } }
         "K4b" => {
             let a = "attribute sh = x => cnt = [ y for y in x.vals ]\n(module) @m { node n\n attr (n) sh = @m }\n(module) @m { let @m.vals = [1] }\n";
